@@ -154,6 +154,19 @@ Contradiction(p, e) == \/ e.internal = "broken"
                        \/ p \in {"PUBFILE", "GENERAL"} /\ PfAvail(e) /\ (e.pfc.atSig = "otherHash" \/ e.pfc.later = "otherHash" \/ (FetchOk(e) /\ ~(RootTrue(e) /\ InputOk(e) /\ AggrOk(e) /\ PubTimeOk(e))))
                        \/ p \in {"KEY", "GENERAL"} /\ e.rec = "auth" /\ PfAvail(e) /\ e.cert \in {"notYetValid", "expired", "badSignature"}
                        \/ p = "CAL" /\ FetchOk(e) /\ ~(RootTrue(e) /\ InputOk(e) /\ AggrOk(e) /\ RLinksOk(e))
+(* the FAIL codes the property admits in environment e: one per condition that e contradicts (when several are contradicted, which one is *)
+(* reported depends on the order of the rules, which the property does not fix)                                                          *)
+ExtCodes(e, hashTrue) == (IF FetchOk(e) /\ ~(hashTrue /\ RootTrue(e)) THEN {"PUB-01"} ELSE {})
+                         \cup (IF FetchOk(e) /\ ~(PubTimeOk(e) /\ AggrOk(e)) THEN {"PUB-02"} ELSE {}) \cup (IF FetchOk(e) /\ ~InputOk(e) THEN {"PUB-03"} ELSE {})
+UserCodes(e) == IF e.up # "given" THEN {} ELSE (IF e.rec = "pub" /\ e.upTime = "atSigPub" /\ e.upHash = "other" THEN {"PUB-04"} ELSE {}) \cup ExtCodes(e, e.upHash = "true")
+PfCodes(e) == IF ~PfAvail(e) THEN {} ELSE (IF e.rec = "pub" /\ e.pfc.atSig = "otherHash" THEN {"PUB-05"} ELSE {}) \cup ExtCodes(e, NearestHash(e) = "true")
+KeyCodes(e) == IF e.rec = "auth" /\ PfAvail(e) THEN (IF e.cert \in {"notYetValid", "expired"} THEN {"KEY-03"} ELSE {}) \cup (IF e.cert = "badSignature" THEN {"KEY-02"} ELSE {}) ELSE {}
+CalCodes(e) == IF ~FetchOk(e) THEN {} ELSE (IF ~RootTrue(e) THEN {"CAL-01"} ELSE {}) \cup (IF ~RLinksOk(e) THEN {"CAL-04"} ELSE {})
+                                             \cup (IF ~InputOk(e) THEN {"CAL-02"} ELSE {}) \cup (IF ~AggrOk(e) THEN {"CAL-03"} ELSE {})
+AdmittedFailCodes(p, e) == (IF e.internal = "broken" THEN {"INT"} ELSE {})
+                           \cup CASE p = "CAL" -> CalCodes(e) [] p = "KEY" -> KeyCodes(e) [] p = "PUBFILE" -> PfCodes(e) [] p = "USERPUB" -> UserCodes(e)
+                                   [] p = "GENERAL" -> UserCodes(e) \cup PfCodes(e) \cup KeyCodes(e)
+FailCodeAdmitted(p, e) == Verdict(p, e).res = "FAIL" => Verdict(p, e).code \in AdmittedFailCodes(p, e)
 OkOnlyIfBound(p, e) == Verdict(p, e).res = "OK" => (e.internal = "ok" /\ Bound(p, e))
 FailOnlyOnContradiction(p, e) == Verdict(p, e).res = "FAIL" => Contradiction(p, e)
 BrokenNeverOk(p, e) == e.internal = "broken" => Verdict(p, e).res = "FAIL"
